@@ -180,8 +180,15 @@ class UnitBuild:
         for r in c.get('requires', []):
             out.append(('requires', None, '__CPROVER_requires(%s)' % r))
         if c.get('assigns') is not None:
-            out.append(('assigns', None, '__CPROVER_assigns(%s)' % ', '.join(c['assigns'])))
-        for e in c.get('ensures', []):
+            a = list(c['assigns']) + ([sub(x) for x in c.get('assigns_callee', [])] if for_decl else [])
+            out.append(('assigns', None, '__CPROVER_assigns(%s)' % ', '.join(a)))
+        ens = list(c.get('ensures', []))
+        asg = c.get('assigns')
+        if for_decl:
+            # history-variable definitions: clauses that *define* ghost variables in terms of the call's result; they are
+            # part of the callee's contract as seen by callers and have nothing to prove in the callee itself
+            ens += [(e[0], sub(e[1])) if isinstance(e, tuple) else sub(e) for e in c.get('ensures_callee', [])]
+        for e in ens:
             tag, text = (e if isinstance(e, tuple) else (None, e))
             out.append(('ensures', tag, '__CPROVER_ensures(%s)' % text))
         return out
